@@ -457,6 +457,18 @@ func (e *Engine) packagesFor(blocks []*Block) []string {
 			seen[b.PkgPath] = true
 			out = append(out, b.PkgPath)
 		}
+		// struct blocks may name target types of other packages
+		for _, cl := range b.Clauses {
+			if cl.Kind != "decodes_as" {
+				continue
+			}
+			for _, tn := range strings.Split(cl.AtName, "|") {
+				if i := strings.LastIndex(tn, "."); i >= 0 && !seen[tn[:i]] {
+					seen[tn[:i]] = true
+					out = append(out, tn[:i])
+				}
+			}
+		}
 	}
 	sort.Strings(out)
 	return out
